@@ -1,5 +1,168 @@
-(* Eval20.v — evaluation of C20 observations (stub: replaced when C20 is built). *)
-From Verif Require Import Base Sexp.
+(* Eval20.v — evaluation of C20 observations.
+   (run    (fs F...) REAL)        one call of the generated deriveDo on the real runtime:
+                                  REAL = (ret (v...) err leaked alldone) | deadlock
+                                  compared with the set of outcomes the model allows (explorer
+                                  over [expected n]) and with the specification.
+   (search PROG (fs F...))        exhaustive search of the TRANSLATED program for a schedule that
+                                  violates the property (used when translated <> expected).
+   F    = (f (OP...) rv re)   OP = (s c) | (r c)   re = 0 (nil) | tag+1
+   PROG = (prog cap ncells (bodies (INSTR...)...) (main INSTR...)) *)
+From Verif Require Import Base Sexp Do.Sem Do.Explore.
 Open Scope string_scope.
 
-Definition eval20 (e : sexp) : verdict := bad_line.
+Definition instr_of (e : sexp) : option instr :=
+  match e with
+  | L [Sym k] =>
+      if String.eqb k "send" then Some ISend else
+      if String.eqb k "recv" then Some IRecv else
+      if String.eqb k "seterr" then Some ISetErr else
+      if String.eqb k "ret" then Some (IRet []) else None
+  | L (Sym k :: args) =>
+      match map_opt get_nat args with
+      | None => None
+      | Some ns =>
+          if String.eqb k "ret" then Some (IRet ns) else
+          match ns with
+          | [a] =>
+              if String.eqb k "go" then Some (IGo a) else
+              if String.eqb k "ifnil" then Some (IIfErrcNil a) else
+              if String.eqb k "ifset" then Some (IIfErrSet a) else
+              if String.eqb k "next" then Some (INext a) else None
+          | [a; b] =>
+              if String.eqb k "call" then Some (ICall a b) else
+              if String.eqb k "loop" then Some (ILoop a b) else None
+          | _ => None
+          end
+      end
+  | _ => None
+  end.
+
+Definition code_of_sexp (e : sexp) : option (list instr) :=
+  match e with L l => map_opt instr_of l | _ => None end.
+
+Definition prog_of_sexp (e : sexp) : option prog :=
+  match e with
+  | L [Sym p; cap; nc; L (Sym b :: bs); L (Sym m :: ms)] =>
+      if String.eqb p "prog" && String.eqb b "bodies" && String.eqb m "main" then
+        match get_nat cap, get_nat nc, map_opt code_of_sexp bs, map_opt instr_of ms with
+        | Some c, Some n, Some bl, Some ml => Some {| ccap := c; ncells := n; bodies := bl; main := ml |}
+        | _, _, _, _ => None
+        end
+      else None
+  | _ => None
+  end.
+
+Definition uop_of (e : sexp) : option uop :=
+  match e with
+  | L [Sym k; c] =>
+      match get_nat c with
+      | Some c => if String.eqb k "s" then Some (USend c) else if String.eqb k "r" then Some (URecv c) else None
+      | None => None
+      end
+  | _ => None
+  end.
+
+Definition errv_of_nat (n : nat) : errv := match n with 0 => None | S t => Some t end.
+Definition nat_of_errv (e : errv) : nat := match e with None => 0 | Some t => S t end.
+
+Definition ufun_of (e : sexp) : option ufun :=
+  match e with
+  | L [Sym k; L ops; v; r] =>
+      if String.eqb k "f" then
+        match map_opt uop_of ops, get_nat v, get_nat r with
+        | Some o, Some v, Some r => Some {| script := o; rv := v; re := errv_of_nat r |}
+        | _, _, _ => None
+        end
+      else None
+  | _ => None
+  end.
+
+Definition fs_of (e : sexp) : option (list ufun) :=
+  match e with
+  | L (Sym k :: l) => if String.eqb k "fs" then map_opt ufun_of l else None
+  | _ => None
+  end.
+
+Definition action_sexp (a : action) : sexp :=
+  match a with
+  | Tau i => L [Sym "tau"; of_nat i]
+  | Sync a b => L [Sym "sync"; of_nat a; of_nat b]
+  end.
+
+Definition bad_name (b : bad) : string :=
+  match b with
+  | BadRace => "unordered-read-write-of-result"
+  | BadEarlyReturn => "returned-before-all-goroutines-finished"
+  | BadPosition => "values-not-in-position"
+  | BadNilError => "nil-error-although-a-function-failed"
+  | BadForeignError => "error-not-returned-by-any-function"
+  | BadDeadlock => "deadlock"
+  | BadLeak => "goroutine-left-blocked"
+  end.
+
+Definition out_sexp (o : list val * errv) : sexp :=
+  L [L (map of_nat (fst o)); of_nat (nat_of_errv (snd o))].
+
+Definition nat_str (n : nat) : string :=
+  match n with 0 => "0" | 1 => "1" | 2 => "2" | 3 => "3" | 4 => "4" | _ => "5+" end.
+
+Definition nfail (fs : list ufun) : nat :=
+  length (filter (fun f => match re f with Some _ => true | None => false end) fs).
+Definition has_rdv (fs : list ufun) : bool :=
+  existsb (fun f => match script f with [] => false | _ => true end) fs.
+
+(* depth 2^24 steps at most; every explored configuration here has < 10^5 states *)
+Definition depth : nat := 24.
+
+Definition eval_run (fs : list ufun) (real : sexp) : verdict :=
+  let n := length fs in
+  let r := explore (expected n) fs depth in
+  let model_clean := finished r && match found r with None => true | Some _ => false end in
+  let tag := "run/n=" ++ nat_str n ++ "/fail=" ++ nat_str (nfail fs) ++
+             (if has_rdv fs then "/rendezvous" else "/independent") in
+  let model := L (Sym "outcomes" :: map out_sexp (outs r)) in
+  match real with
+  | L [Sym k; L vs; e; leaked; alldone] =>
+      match map_opt get_nat vs, get_nat e, get_nat leaked, get_nat alldone with
+      | Some vs, Some e, Some leaked, Some alldone =>
+          let quiet := Nat.eqb leaked 0 && Nat.eqb alldone 1 in
+          let o := (vs, errv_of_nat e) in
+          {| v_known := String.eqb k "ret";
+             v_model_ok := existsb (out_eqb o) (outs r) && quiet;
+             v_spec_ok := nats_eqb vs (map rv fs) && err_ok fs (errv_of_nat e) && quiet;
+             v_guard := model_clean; v_model := model; v_tag := tag |}
+      | _, _, _, _ => bad_line
+      end
+  | Sym k =>
+      (* the real call did not return within the driver's time limit *)
+      {| v_known := String.eqb k "deadlock"; v_model_ok := false; v_spec_ok := false;
+         v_guard := model_clean; v_model := model; v_tag := tag ++ "/real-deadlock" |}
+  | _ => bad_line
+  end.
+
+Definition eval_search (P : prog) (fs : list ufun) : verdict :=
+  let r := explore P fs depth in
+  let tag := "search/n=" ++ nat_str (length fs) ++ "/fail=" ++ nat_str (nfail fs) ++
+             (if has_rdv fs then "/rendezvous" else "/independent") in
+  match found r with
+  | Some (b, sched) =>
+      {| v_known := true; v_model_ok := true; v_spec_ok := false; v_guard := true;
+         v_model := L [Sym (bad_name b); L (map action_sexp sched)]; v_tag := tag |}
+  | None =>
+      {| v_known := finished r; v_model_ok := true; v_spec_ok := true; v_guard := true;
+         v_model := L [Sym "no-violating-schedule"; of_nat (nvis r)]; v_tag := tag |}
+  end.
+
+Definition eval20 (e : sexp) : verdict :=
+  match e with
+  | L [Sym k; a; b] =>
+      if String.eqb k "run" then
+        match fs_of a with Some fs => eval_run fs b | None => bad_line end
+      else if String.eqb k "search" then
+        match prog_of_sexp a, fs_of b with
+        | Some P, Some fs => eval_search P fs
+        | _, _ => bad_line
+        end
+      else bad_line
+  | _ => bad_line
+  end.
